@@ -79,6 +79,8 @@ def tasks(tier, seed):
         out.append({"fn": "simple_real", "kwargs": {"bits": b}, "label": f"simple/real/bits={b}"})
     out.append({"fn": "dtype_width", "kwargs": {}, "label": "dtype/width"})
     out.append({"fn": "model_dtype", "kwargs": {}, "label": "simple/model_dtype"})
+    for dtn in ("uint8", "uint16", "uint32", "uint64"):
+        out.append({"fn": "model_data_type", "kwargs": {"data_type": dtn}, "label": f"simple/model_data_type/{dtn}", "caps": {"max_seconds": 300, "solver_timeout_ms": 60000}})
     for mname in ("simple_adc", "sar_adc"):
         out.append({"fn": "model_reuse", "kwargs": {"model_name": mname}, "label": f"model_reuse/{mname}", "caps": {"max_seconds": 300, "solver_timeout_ms": 60000}})
     sar_b = [4, 8, 12, 16, 24] if tier == "quick" else [4, 6, 8, 10, 12, 16, 24, 32, 48, 64]
@@ -251,6 +253,45 @@ def model_dtype():
     vx.prove("C16/model/dtype_wide_enough", (img.dtype.kind == "u") & (8 * img.dtype.itemsize >= bb))
     vx.prove("C16/model/monotone", img.elems()[0] <= img.elems()[1])
     vx.prove("C16/model/bounds", vx.all_of([(e >= 0) & (e <= 2**bb - 1) for e in img.elems()]))
+
+
+def model_data_type(data_type):
+    """simple_adc with its `data_type` option, for every pair (storage class of the resolution, requested type): the setting is either
+    refused (no image is stored) or the stored image is in an unsigned type that holds full scale, saturated inputs read full scale
+    and codes are ordered.  Fixed-width wrap of array casts is modelled here (numpy semantics of astype and of Python-int stores)."""
+    sa = _mods()[0]
+    det = make_ccd(1, 2)
+    k = vx.integer("class")
+    reps = (8, 12, 24, 40, 64)
+    vx.assume((k >= 0) & (k <= 4), "one resolution per storage class (and 64)")
+    bb = reps[core.concretize_int(k)]
+    det.characteristics._adc_bit_resolution = bb
+    det.characteristics._adc_voltage_range = (0.0, 4.0)
+    x = vx.real("x")
+    vx.assume((x >= 0) & (x <= 8), "voltages around the range")
+    lab = f"{data_type}/bits={bb}"
+    before = det.image._array
+    symnp.WRAP_MODEL["enabled"] = True
+    try:
+        with Patch() as p:
+            p.numpy(ADC_MODS[0], ADC_MODS[3], "pyxel.data_structure.array", "pyxel.data_structure.image", "pyxel.data_structure.signal")
+            det.signal.array = symnp.SymArray.from_elems([x, x + 4], (1, 2), np.float64)
+            try:
+                sa.simple_adc(det, data_type=data_type)
+                stored = True
+            except (OverflowError, ValueError, TypeError):
+                stored = False
+            img = det.image._array
+    finally:
+        symnp.WRAP_MODEL["enabled"] = False
+    if not stored:
+        vx.reach("C16/model/data_type/refused")
+        vx.prove(f"C16/model/data_type/refused_stores_nothing/{lab}", img is before)
+        vx.prove(f"C16/model/data_type/refused_only_when_too_narrow/{lab}", 8 * np.dtype(data_type).itemsize < bb)
+        return
+    vx.prove(f"C16/model/data_type/dtype_wide_enough/{lab}", (img.dtype.kind == "u") & (8 * img.dtype.itemsize >= bb))
+    vx.prove(f"C16/model/data_type/full_scale/{lab}", img.elems()[1] == 2**bb - 1)
+    vx.prove(f"C16/model/data_type/monotone_bounds/{lab}", (img.elems()[0] <= img.elems()[1]) & (img.elems()[0] >= 0) & (img.elems()[1] <= 2**bb - 1))
 
 
 def model_reuse(model_name):
@@ -438,6 +479,26 @@ def replay(oid, kwargs, model, data):
         if clause == "zero":
             return (x <= 0 and cx != 0), det
         return False, det
+    if fn == "model_data_type":
+        from pyxel.models.readout_electronics import simple_adc
+
+        reps = (8, 12, 24, 40, 64)
+        bb = reps[int(model.get("class", 0)) % 5]
+        x = _f(model.get("x"))
+        det = make_ccd(1, 2)
+        det.characteristics._adc_voltage_range = (0.0, 4.0)
+        det.characteristics._adc_bit_resolution = bb
+        det.signal.array = np.array([[x, x + 4]], dtype=float)
+        before = det.image._array
+        try:
+            with np.errstate(all="ignore"):
+                simple_adc(det, data_type=kwargs["data_type"])
+        except (OverflowError, ValueError, TypeError) as e:
+            wide = 8 * np.dtype(kwargs["data_type"]).itemsize >= bb
+            return bool(det.image._array is not before or wide), {"refused": f"{type(e).__name__}: {e}", "bits": bb, "image_left": str(det.image._array)}
+        img = det.image.array
+        bad = img.dtype.kind != "u" or 8 * img.dtype.itemsize < bb or int(img[0, 1]) != 2**bb - 1 or int(img[0, 0]) > int(img[0, 1])
+        return bool(bad), {"resolution": bb, "data_type": kwargs["data_type"], "image_dtype": str(img.dtype), "image": img.tolist(), "full_scale": 2**bb - 1, "signal": [x, x + 4]}
     if fn == "model_reuse":
         import importlib
 
